@@ -140,4 +140,9 @@ class WrappedDispatcher:
         self.dispatcher.timeout(seconds, callback, *args)
 
     def reconnect(self, seconds: int, reconnector: Callable) -> None:
-        self.timeout(seconds, reconnector, True)
+        def retry() -> None:
+            if self.app.keep_running:
+                # not after close() was called during the wait
+                reconnector(True)
+
+        self.timeout(seconds, retry)
